@@ -218,18 +218,11 @@ func propC07(c *Ctx) {
 		n := 0
 		bmReg := NewRegion(fn) // the look-up may live in a helper of the routine
 		bmReg.AllInstrs(func(in ssa.Instruction) {
-			lk, ok := in.(*ssa.Lookup)
-			if !ok || !lk.CommaOk {
+			lk, lkIndex, ok := blockLookupInstr(in)
+			if !ok {
 				return
 			}
-			fn := lk.Parent()
-			mt, isMap := lk.X.Type().Underlying().(*types.Map)
-			if !isMap {
-				return
-			}
-			if pt, ok := mt.Elem().Underlying().(*types.Pointer); !ok || !repoNamedIs(pt.Elem(), "eth", "Block") {
-				return
-			}
+			fn := in.Parent()
 			n++
 			var okV, val ssa.Value
 			for _, ref := range *lk.Referrers() {
@@ -261,7 +254,7 @@ func propC07(c *Ctx) {
 					}
 				}
 				// in a helper: its error must be handed on by every caller up to the routine
-				if ch := bmReg.chain(lk); len(ch) > 1 {
+				if ch := bmReg.chain(in); len(ch) > 1 {
 					for _, at := range ch[:len(ch)-1] {
 						if call, isCall := at.(*ssa.Call); !isCall || !callErrorArmReturns(call) {
 							good = false
@@ -275,7 +268,7 @@ func propC07(c *Ctx) {
 			// change that looked the block up by start+i).  For logs the grouping rule (R7.10) says the same.
 			if name != "(*Client).logs" {
 				own := false
-				kv := stripNum(bmReg.Resolve(stripNum(lk.Index)))
+				kv := stripNum(bmReg.Resolve(stripNum(lkIndex)))
 				for i := 0; i < 4; i++ {
 					if lf, _ := loadedField(kv); lf != nil && lf.Name() == "BlockNum" {
 						own = true
@@ -1043,8 +1036,8 @@ func propC07Ranges(c *Ctx) {
 	}{
 		{"(*Client).logs", func(in ssa.Instruction) bool { _, ok := in.(*ssa.MapUpdate); return ok }, "insertion into logsByTx"},
 		{"(*Client).receipts", func(in ssa.Instruction) bool {
-			lk, ok := in.(*ssa.Lookup)
-			return ok && lk.CommaOk
+			_, _, ok := blockLookupInstr(in)
+			return ok
 		}, "block look-up"},
 	} {
 		fn := w.Fn("jrpc2", spec.fn)
@@ -1096,4 +1089,113 @@ func propC07Ranges(c *Ctx) {
 			c.Check("R7.5", fmt.Sprintf("%s/range-test-before-attach#%d", fnName(fn), n), instrPos(in), ok, spec.attDesc+" happens only for block numbers tested against [start, start+limit]")
 		})
 	}
+}
+
+// blockLookupInstr: in looks a block up by number with a found flag: `b, ok := bm[n]` on a
+// map of *eth.Block, or `b, ok := bm.at(n)` on a block-map type of the package with a look-up
+// method.  Returns the tuple value and the number looked up.
+func blockLookupInstr(in ssa.Instruction) (ssa.Value, ssa.Value, bool) {
+	switch x := in.(type) {
+	case *ssa.Lookup:
+		if !x.CommaOk {
+			return nil, nil, false
+		}
+		mt, isMap := x.X.Type().Underlying().(*types.Map)
+		if !isMap {
+			return nil, nil, false
+		}
+		if pt, ok := mt.Elem().Underlying().(*types.Pointer); !ok || !repoNamedIs(pt.Elem(), "eth", "Block") {
+			return nil, nil, false
+		}
+		return x, x.Index, true
+	case *ssa.Call:
+		h := staticCallee(x)
+		if h == nil || h.Signature.Recv() == nil || !isRepoFunc(h) || len(x.Call.Args) != 2 {
+			return nil, nil, false
+		}
+		rn := namedOf(h.Signature.Recv().Type())
+		if rn == nil || rn.Obj().Name() != "blockmap" {
+			return nil, nil, false
+		}
+		res := h.Signature.Results()
+		if res.Len() != 2 || !isBoolType(res.At(1).Type()) {
+			return nil, nil, false
+		}
+		if pt, ok := res.At(0).Type().Underlying().(*types.Pointer); !ok || !repoNamedIs(pt.Elem(), "eth", "Block") {
+			return nil, nil, false
+		}
+		// found only by number: the method answers true only with an element whose number was compared equal
+		if !lookupMethodOK(h) {
+			return nil, nil, false
+		}
+		return x, x.Call.Args[1], true
+	}
+	return nil, nil, false
+}
+
+var lookupMethodMemo = map[*ssa.Function]bool{}
+
+// lookupMethodOK: h(bm, num) answers (p, true) only on the edge where the number of the very element p
+// points to was compared equal with num, and (nil, false) otherwise.
+func lookupMethodOK(h *ssa.Function) bool {
+	if v, ok := lookupMethodMemo[h]; ok {
+		return v
+	}
+	good := h.Blocks != nil && len(h.Params) == 2
+	nTrue := 0
+	if good {
+		num := h.Params[1]
+		for _, r := range returnsOf(h) {
+			vals := returnValues(r)
+			k, isK := vals[1].(*ssa.Const)
+			if !isK || k.Value == nil {
+				good = false
+				continue
+			}
+			if k.Value.String() == "false" {
+				if !isNilConst(vals[0]) {
+					good = false
+				}
+				continue
+			}
+			nTrue++
+			// the element handed out
+			elem := stripConv(vals[0])
+			eq, _ := cmpEdges(h, func(b *ssa.BinOp) bool {
+				if b.Op != token.EQL {
+					return false
+				}
+				for _, pair := range [][2]ssa.Value{{b.X, b.Y}, {b.Y, b.X}} {
+					if stripNum(pair[1]) != ssa.Value(num) {
+						continue
+					}
+					root, ch := fieldChain(stripNum(pair[0]))
+					if len(ch) == 0 || !(ch[len(ch)-1].Name() == "Number" || ch[len(ch)-1].Name() == "Num") {
+						// Num() of the element
+						if call, ok := stripNum(pair[0]).(*ssa.Call); ok && staticCallee(call) != nil && staticCallee(call).Name() == "Num" && len(call.Call.Args) == 1 {
+							root = stripConv(call.Call.Args[0])
+						} else {
+							continue
+						}
+					}
+					if root == elem || sameVar(root, elem) {
+						return true
+					}
+					// same element of the same slice by the same index
+					s1, i1, ok1 := elemOf(root)
+					s2, i2, ok2 := elemOf(elem)
+					if ok1 && ok2 && i1 == i2 && (s1 == s2 || sameVar(s1, s2)) {
+						return true
+					}
+				}
+				return false
+			})
+			if len(eq) == 0 || !guardedByEdges(h, r, eq) {
+				good = false
+			}
+		}
+	}
+	good = good && nTrue > 0
+	lookupMethodMemo[h] = good
+	return good
 }
